@@ -173,8 +173,17 @@ func cryptoStub(in *Interp, fn *ssa.Function, pkg, name string) StubFn {
 	}
 	if isHashType(rn) {
 		switch name {
+		// a hash is a deterministic opaque function of the bytes written since the last Reset
 		case "Write":
 			return func(in *Interp, fn *ssa.Function, a []Val) Val {
+				if p, ok := a[0].(Ptr); ok && p.Obj != nil {
+					sl := a[1].(SliceV)
+					key := ""
+					for i := 0; i < sl.Len; i++ {
+						key += valKey(in.sliceGet(sl, i)) + ","
+					}
+					in.transcripts[p.Obj] += key
+				}
 				return TupleV{BVConst(uint64(a[1].(SliceV).Len), 64), IfaceV{}}
 			}
 		case "Sum":
@@ -186,13 +195,26 @@ func cryptoStub(in *Interp, fn *ssa.Function, pkg, name string) StubFn {
 				for i := 0; i < b.Len; i++ {
 					arr.E[i] = in.sliceGet(b, i)
 				}
+				var ts []*Term
+				if p, ok := a[0].(Ptr); ok && p.Obj != nil {
+					ts = in.memoBytes(rn.Obj().Pkg().Path()+"."+rn.Obj().Name()+"|"+in.transcripts[p.Obj], n, "digest")
+				}
 				for i := 0; i < n; i++ {
-					arr.E[b.Len+i] = in.fresh(fmt.Sprintf("digest[%d]", i), BVSort(8))
+					if ts != nil {
+						arr.E[b.Len+i] = ts[i]
+					} else {
+						arr.E[b.Len+i] = in.fresh(fmt.Sprintf("digest[%d]", i), BVSort(8))
+					}
 				}
 				return out
 			}
 		case "Reset":
-			return func(in *Interp, fn *ssa.Function, a []Val) Val { return nil }
+			return func(in *Interp, fn *ssa.Function, a []Val) Val {
+				if p, ok := a[0].(Ptr); ok && p.Obj != nil {
+					delete(in.transcripts, p.Obj)
+				}
+				return nil
+			}
 		case "Size":
 			return func(in *Interp, fn *ssa.Function, a []Val) Val { return BVConst(uint64(hashSize(in, rn)), 64) }
 		case "BlockSize":
